@@ -116,6 +116,7 @@ def regen(log):
         res['ok'] = False
         res['error'] = 'translator failed:\n' + r.stdout[-4000:]
         return res
+    write_sjis_ref(os.path.join(tmp, 'SjisRef.lean'))
     os.makedirs(GEN, exist_ok=True)
     new = sorted(os.listdir(tmp))
     for f in os.listdir(GEN):
@@ -131,6 +132,38 @@ def regen(log):
     shutil.rmtree(tmp, ignore_errors=True)
     log('regen: changed=%s mismatches=%d' % (res['changed'], len(res['mismatches'])))
     return res
+
+
+def sjis_ref_table():
+    """reference Shift JIS (Windows-31J) table from CPython's built-in cp932 codec, independent of
+    /repo's index-jis0208.txt: entry `code` (13 bits) = code point of the double byte
+    sjisOf(code), 0 when that double byte is not a single assigned BMP character."""
+    out = []
+    for code in range(8192):
+        h = code // 0xC0
+        hi = h + 0x81 if h < 0x1F else h + 0xC1
+        lo = code % 0xC0 + 0x40
+        cp = 0
+        if hi <= 0xFF:
+            try:
+                ch = bytes([hi, lo]).decode('cp932')
+                if len(ch) == 1 and ord(ch) < 0x10000:
+                    cp = ord(ch)
+            except UnicodeDecodeError:
+                cp = 0
+        out.append(cp)
+    return out
+
+
+def write_sjis_ref(path):
+    t = sjis_ref_table()
+    n = 0
+    for i in range(len(t) - 1, -1, -1):
+        n = (n << 16) | t[i]
+    with open(path, 'w') as f:
+        f.write("-- GENERATED by /verif/checks/common.py from CPython's cp932 codec (independent of /repo). DO NOT EDIT.\n")
+        f.write('namespace QRV.Gen.SjisRef\n\n/-- 8192 entries of 16 bits: code point of the Shift JIS double byte of each 13-bit code, 0 = unassigned -/\n')
+        f.write('def refPacked : Nat := 0x%x\n\nend QRV.Gen.SjisRef\n' % n)
 
 
 THEOREM_RE = re.compile(r'^\s*(?:@\[[^\]]*\]\s*)?(?:private\s+|protected\s+)?theorem\s+([^\s:({\[]+)')
